@@ -632,4 +632,40 @@ func genC05(c *Ctx) {
 	}
 	c.dist["model_leaf_hash_estimate"] = spent
 	helperCases(c)
+	hugeBlobCountCase(c, r)
+}
+
+// hugeBlobCountCase (Go side only, 512x512): ONE blob transaction with 65 537 one-share blobs followed by a
+// transaction whose blob has three shares.  Blob indexes beyond 2^16 exist; the range reported for a blob must
+// be the range its own shares occupy (so that its subtree roots are the row-tree nodes over exactly that range):
+// (tx 0, blob 65536) and (tx 1, blob 0) must not be confused by any packed or truncated lookup key.
+func hugeBlobCountCase(c *Ctx, r *Rng) {
+	wit := map[string]any{"case": "one blob tx with 65537 one-share blobs, then a tx with a 3-share blob; max 512"}
+	c.guard("BlobShareRange", wit, func() {
+		ns := append(make([]byte, 19), r.Bytes(10)...)
+		ns2 := append(make([]byte, 19), r.Bytes(10)...)
+		n := 65537
+		blobs := make([]*share.Blob, n)
+		for i := range blobs {
+			b, err := share.NewBlob(nsOf(ns), []byte{byte(i), byte(i >> 8), 1}, 0, nil)
+			if err != nil {
+				panic("harness: NewBlob: " + err.Error())
+			}
+			blobs[i] = b
+		}
+		raw1, err := tx.MarshalBlobTx([]byte("inner-1"), blobs...)
+		if err != nil {
+			panic("harness: MarshalBlobTx: " + err.Error())
+		}
+		big, _ := share.NewBlob(nsOf(ns2), r.Bytes(478+482+100), 0, nil)
+		raw2, _ := tx.MarshalBlobTx([]byte("inner-2"), big)
+		kept := [][]byte{raw1, raw2}
+		for _, q := range [][3]int{{0, 65536, 1}, {0, 65535, 1}, {0, 0, 1}, {1, 0, 3}} {
+			rg, err := square.BlobShareRange(kept, q[0], q[1], 512, 64)
+			c.check(err == nil && rg.End-rg.Start == q[2], "BlobShareRange", "the reported range does not have the blob's own share count",
+				map[string]any{"tx": q[0], "blob": q[1], "want_shares": q[2], "case": wit["case"]})
+		}
+		c.count("blob_index_beyond_2^16")
+		c.goOnly++
+	})
 }
